@@ -1,5 +1,7 @@
 import SophiaProofs.Lemmas.JsonLdRender
 import SophiaProofs.Lemmas.JsonLdMark
+import SophiaProofs.Lemmas.JsonLdRoundTrip
+import SophiaProofs.Lemmas.JsonLdTerm
 
 /-!
 C12 — JSON-LD serialisation round-trips every representable dataset.
@@ -7,79 +9,66 @@ C12 — JSON-LD serialisation round-trips every representable dataset.
 All statements are about `SophiaModel.JsonLd.serialize` / `toRdf`, the functions the driver
 `smd_C12` executes and the harness compares with the real `JsonLdSerializer` / `JsonLdParser`.
 
-`Shipped` is the switch regenerated from `jsonld/src/serializer/engine.rs` on every run: the
-source indexes `self.unique_parent[s_id]` (shipped) or uses `.get(s_id)` (text of
-notes/fixes/C12-unreferenced-list-head.diff).  Statements that are only true of one of the two
-texts carry the switch as a hypothesis, so that the file checks against either.
+`Gen.JsonLdFlags.uniqueParentGet` is the switch regenerated from `jsonld/src/serializer/engine.rs` on every run:
+`mark_list_node` reads `unique_parent` with `.get(s_id)` (true; fix 949b852) or indexes `self.unique_parent[s_id]`
+(false; panics on an absent key).  `unique_parent_lookup_is_get` pins it: a regression of the source to indexing
+fails that obligation (and `no_panic_partial`, which uses it), and the panic is then found on `unreferencedHead`.
 -/
 namespace SophiaProofs.C12
 open SophiaModel SophiaModel.JsonLd SophiaProofs.JsonLdLemmas
 open SophiaModel.JsonLd.RdfObject (startsBn)
 
-abbrev Shipped : Prop := Gen.JsonLdFlags.uniqueParentGet = false
+/-- the source uses `self.unique_parent.get(s_id)` (regenerated table; `rfl` fails if /repo goes back to indexing) -/
+theorem unique_parent_lookup_is_get : Gen.JsonLdFlags.uniqueParentGet = true := rfl
 
-/-! ## 1. no panic -/
+/-! ## 1. no panic, termination -/
 
-/-- full-strength statement; FALSE for the code as shipped (`no_panic_refuted`) -/
-def NoPanic : Prop := ∀ (o : Opts) (D : List Quad), isPanic (serialize o D) = false
+/-- full-strength statement (OPEN): on every dataset with absolute IRIs the serializer returns a document —
+no `HashMap` / slice / `[0]` panic, no loop that fails to terminate (`Fail.fuel`).  (With a one-byte IRI `&id[..2]`
+does panic: `quadAbs` is the property's "IRI".)  Proved: `no_panic_partial` (the whole marking phase, every dataset)
+and `roundtrip_nolist` (everything, datasets without list vocabulary).  Missing obligation: the rendering of marked
+lists — `populate_list`'s `map[RDF_FIRST][0]`, `map[RDF_REST][0]` and its loop need "a `Node(i, id)` value whose id is
+in `list_node` sits in the unique parent's slot, hence `i` is the marked slot, and following `rdf:rest` from it
+ends at `rdf:nil`"; the differential has never seen either fail (15 k cases per quick run, 200 k thorough; `fuel` field). -/
+def NoPanic : Prop := ∀ (o : Opts) (D : List Quad), (∀ q ∈ D, quadAbs q = true) → ∃ doc, serialize o D = .ok doc
 
-/-- `_:l rdf:first <http://x/a> . _:l rdf:rest rdf:nil .` — nothing refers to `_:l` -/
+/-- `_:l rdf:first <http://x/a> . _:l rdf:rest rdf:nil .` — nothing refers to `_:l`; the input that panicked
+(`no entry found for key`) before 949b852 -/
 def unreferencedHead : List Quad :=
   [⟨.bnode ['l'], .iri rdfFirst, .iri "http://x/a".toList, none⟩,
    ⟨.bnode ['l'], .iri rdfRest, .iri rdfNil, none⟩]
 
-theorem no_panic_witness : Shipped → isPanic (serialize {} unreferencedHead) = true := by decide
+example : (match serialize {} unreferencedHead with | .ok doc => toRdf {} doc | .error _ => []) = unreferencedHead := by
+  decide
 
-theorem no_panic_refuted : Shipped → ¬ NoPanic := fun hs h => by
-  have := h {} unreferencedHead
-  rw [no_panic_witness hs] at this
-  cases this
-
-/-- What guards the indexing `self.unique_parent[s_id]`: every node id beginning with `_:` that is the
-subject of an expressible `rdf:rest` quad is the id of the (blank) object of some expressible quad.
-For well-formed IRIs (which never begin with `_:`) this reads: every blank node that is the subject
-of `rdf:rest` occurs as the object of some quad. -/
-def RestSubjectsReferenced (D : List Quad) : Prop :=
-  ∀ q ∈ D, isJsonLd q = true → isIriC rdfRest q.p = true → startsBn (asId q.s) = true →
-    ∃ q' ∈ D, isJsonLd q' = true ∧ isBnode q'.o = true ∧ asId q'.o = asId q.s
-
-/-- the hypothesis is satisfiable by a dataset with a list -/
-example : RestSubjectsReferenced
-    (⟨.iri "http://x/s".toList, .iri "http://x/p".toList, .bnode ['l'], none⟩ :: unreferencedHead) := by
-  intro q hq _ _ _
-  exact ⟨_, List.mem_cons_self, by decide, by decide, by
-    simp only [unreferencedHead, List.mem_cons, List.not_mem_nil, or_false] at hq
-    rcases hq with rfl | rfl | rfl <;> first | rfl | (exfalso; revert ‹isIriC rdfRest _ = true›; decide)⟩
-
-/-- and excludes the witness -/
-example : ¬ RestSubjectsReferenced unreferencedHead := by
-  intro h
-  obtain ⟨q', hq', _, hb, _⟩ := h ⟨.bnode ['l'], .iri rdfRest, .iri rdfNil, none⟩ (by simp [unreferencedHead])
-    (by decide) (by decide) (by decide)
-  simp only [unreferencedHead, List.mem_cons, List.not_mem_nil, or_false] at hq'
-  rcases hq' with rfl | rfl <;> revert hb <;> decide
-
-/-- **no_panic_partial**: the marking phase of `into_json` — the only code that indexes
-`unique_parent` — does not panic on any dataset in which the subjects of `rdf:rest` are referenced
-(or on any dataset at all once the lookup is `.get(..)`).
-
-Full statement still open: `∀ o D, RestSubjectsReferenced D → (IRIs have ≥ 2 leading ASCII bytes) →
-isPanic (serialize o D) = false`.  Missing obligation: the rendering phase (`populate_list`'s
-`map[RDF_FIRST][0]`, `map[RDF_REST][0]`) — it needs the invariant "a `Node(i, id)` value whose id is in
-`list_node` sits in the unique parent's slot, hence `i` is the marked slot", which is argued in
-notes but not formalised; the differential has never seen it fail. -/
-theorem no_panic_partial (o : Opts) (D : List Quad)
-    (h : Gen.JsonLdFlags.uniqueParentGet = true ∨ RestSubjectsReferenced D) :
-    isPanic (markAll o (processQuads o D) (processQuads o D).listSeeds []) = false := by
+/-- **no_panic_partial**: the marking phase of `into_json` — `mark_list_node` for every seed: the only code that reads
+`unique_parent`, and a `loop` — returns normally on EVERY dataset, in both modes: it neither panics nor fails to
+terminate (the model's fuel `gs_id.len() + 1` is never exhausted: the walk up the `rdf:rest` parents passes each slot at
+most once, `Lemmas/JsonLdTerm.lean`).  Full statement: `NoPanic` above. -/
+theorem no_panic_partial (o : Opts) (D : List Quad) :
+    ∃ ln, markAll o (processQuads o D) (processQuads o D).listSeeds [] = .ok ln := by
   have inv := inv_processQuads o D
-  refine markAll_no_panic o _ D inv.parents ?_ _ _ inv.seeds
-  rcases h with h | h
-  · exact Or.inl h
-  · right
-    intro s hbn ⟨q, hq, hj, hr, hs⟩
-    obtain ⟨q', hq', hj', hb', hs'⟩ := h q hq hj hr (hs ▸ hbn)
-    have := inv.keys q' hq' hj' hb'
-    rwa [hs', hs] at this
+  have h1 : isPanic (markAll o (processQuads o D) (processQuads o D).listSeeds []) = false :=
+    markAll_no_panic o _ D inv.parents (Or.inl unique_parent_lookup_is_get) _ _ inv.seeds
+  have h2 : isFuel (markAll o (processQuads o D) (processQuads o D).listSeeds []) = false :=
+    markAll_no_fuel o _ D (pinv_processQuads o D) inv _ _ (fun _ h => h)
+  cases hm : markAll o (processQuads o D) (processQuads o D).listSeeds [] with
+  | ok ln => exact ⟨ln, rfl⟩
+  | error e =>
+    rw [hm] at h1 h2
+    cases e
+    · simp [isPanic] at h1
+    · simp [isFuel] at h2
+
+/-- not vacuous: on this 5-quad dataset (a two-cell list below a blank parent, in a named graph) the walk marks two
+cells -/
+example : (match markAll {} (processQuads {} (
+    [⟨.bnode ['x'], .iri rdfRest, .bnode ['y'], some (.iri "http://x/g".toList)⟩,
+     ⟨.bnode ['y'], .iri rdfRest, .iri rdfNil, some (.iri "http://x/g".toList)⟩,
+     ⟨.bnode ['x'], .iri rdfFirst, .iri "http://x/a".toList, some (.iri "http://x/g".toList)⟩,
+     ⟨.bnode ['y'], .iri rdfFirst, .iri "http://x/a".toList, some (.iri "http://x/g".toList)⟩,
+     ⟨.bnode ['p'], .iri "http://x/p".toList, .bnode ['x'], some (.iri "http://x/g".toList)⟩])) [2] [] with
+    | .ok ln => ln | .error _ => []) = [("_:y".toList, 0), ("_:x".toList, 5)] := by decide
 
 /-! ## 2. the only quads omitted from the engine's input are those `is_jsonld` rejects -/
 
@@ -162,28 +151,22 @@ private def b : Term := .bnode ['b']
 def NoListVocab (D : List Quad) : Prop :=
   ∀ q ∈ D, isIriC rdfFirst q.p = false ∧ isIriC rdfRest q.p = false ∧ isIriC rdfNil q.o = false
 
-/-- **roundtrip_nolist**, full statement (open): for modes 1.0 / 1.1 × use_rdf_type, rdf_direction unset,
-well-formed IRIs, a dataset without list vocabulary round-trips.  Proved below:
-`roundtrip_nolist_partial` = (1) `process_quads` stores exactly the expressible quads, nothing dropped,
-nothing invented, and (2) nothing is marked, so `jsonify` suppresses no slot on account of lists and the
-document is `jsonifyAll` over all slots; `node_object_roundtrip` = (3) for one node map, `make_node_object`
-followed by the reader gives back exactly the triples the map holds (every literal kind, IRIs, blank
-nodes, rdf:nil, `@type`), with no auxiliary triples.  Missing obligation: the traversal — the node maps
-satisfy the side conditions of (3) (`@type` values are nodes, ids have two leading ASCII bytes), and
-`jsonify`'s root / `@graph` nesting reaches every non-empty named-graph slot under the right graph name
-(the `@graph` link invariant of `process_quads`). -/
+/-- statement of the no-list round trip: for modes 1.0 / 1.1 × use_rdf_type, rdf_direction unset, absolute IRIs, a
+dataset without list vocabulary — default and named graphs, blank graph names, blank nodes shared between graphs,
+every kind of literal, rdf:type with IRI / blank / literal objects — round-trips.  PROVED: `roundtrip_nolist`. -/
 def RoundtripNoList : Prop :=
-  ∀ o D, o.dir = .none → (∀ q ∈ D, quadOk q = true) → NoListVocab D → RoundTrips o D
+  ∀ o D, o.dir = .none → (∀ q ∈ D, quadAbs q = true) → NoListVocab D → RoundTrips o D
 
-example : NoListVocab [⟨s, p, a, some g⟩, ⟨b, .iri rdfType, .lang ['x'] ['e', 'n'], none⟩] ∧
-    (∀ q ∈ [⟨s, p, a, some g⟩, (⟨b, .iri rdfType, .lang ['x'] ['e', 'n'], none⟩ : Quad)], quadOk q = true) := by
+example : NoListVocab [⟨s, p, a, some g⟩, ⟨b, .iri rdfType, .lang ['x'] ['e', 'n'], none⟩, ⟨b, p, b, some b⟩] ∧
+    (∀ q ∈ [⟨s, p, a, some g⟩, ⟨b, .iri rdfType, .lang ['x'] ['e', 'n'], none⟩, (⟨b, p, b, some b⟩ : Quad)],
+      quadAbs q = true) := by
   constructor
   · intro q hq
     simp only [List.mem_cons, List.not_mem_nil, or_false] at hq
-    rcases hq with rfl | rfl <;> decide
+    rcases hq with rfl | rfl | rfl <;> decide
   · intro q hq
     simp only [List.mem_cons, List.not_mem_nil, or_false] at hq
-    rcases hq with rfl | rfl <;> decide
+    rcases hq with rfl | rfl | rfl <;> decide
 
 theorem roundtrip_nolist_partial (o : Opts) (D : List Quad) (hd : o.dir = .none)
     (hok : ∀ q ∈ D, quadOk q = true) (hnl : NoListVocab D) :
@@ -222,6 +205,53 @@ example : ∀ k vs, (k, vs) ∈ ([(kType, [.node 1 rdfList]), ("http://x/p".toLi
   · simp only [List.mem_cons, List.not_mem_nil, or_false] at hv
     refine ⟨fun h => absurd h (by decide), fun i id h => ?_⟩
     rcases hv with rfl | rfl | rfl | rfl | rfl <;> cases h <;> decide
+
+theorem renameT_id (t : Term) : renameT id t = t := by cases t <;> rfl
+
+theorem renameQ_id (q : Quad) : renameQ id q = q := by
+  cases q with
+  | mk s p o g =>
+    simp only [renameQ, renameT_id]
+    cases g <;> simp [renameT_id]
+
+/-- **roundtrip_nolist** (the no-list fragment of the property, every graph shape): serialising and reading back gives
+the expressible quads of the input — none dropped, none duplicated (as sets), none invented, blank labels unchanged
+(the isomorphism is the identity: without lists the reader creates no node).  Ingredients: `denotes_processQuads` (the
+engine holds exactly the expressible quads), `GInv` (the `@graph` links are sound and complete, the stored values
+satisfy the side conditions of the renderer), `jsonifyAll_rt2` (root loop + `@graph` children render every slot,
+`node_object_roundtrip` per slot), `mem_rootQ_iff`. -/
+theorem roundtrip_nolist (o : Opts) (D : List Quad) (hd : o.dir = .none)
+    (hok : ∀ q ∈ D, quadAbs q = true) (hnl : NoListVocab D) : RoundTrips o D := by
+  have hok' : ∀ q ∈ D, quadOk q = true := fun q hq => quadAbs_ok (hok q hq)
+  obtain ⟨hden, hser, _⟩ := roundtrip_nolist_partial o D hd hok' hnl
+  have inv := ginv_processQuads o D hok
+  generalize hE : processQuads o D = E at hden hser inv
+  have inv' : GInv { E with listSeeds := [], listNode := [] } :=
+    ⟨inv.aligned, inv.ids, inv.maps, inv.sound, inv.complete⟩
+  obtain ⟨doc, hdoc, hrdf⟩ := jsonifyAll_rt2 o { E with listSeeds := [], listNode := [] }
+    (List.replicate (maxIdLen (match serialize o D with | .ok d => d | .error _ => []) + 1) 'c')
+    hd rfl (List.range E.node.length) 0 (fun i hi => rootOk_of_ginv inv' (List.mem_range.mp hi))
+  have hs : serialize o D = .ok doc := hser.trans hdoc
+  refine ⟨doc, hs, id, fun a b h => h, fun q => ?_⟩
+  simp only [hs] at hrdf
+  have hto : toRdf o doc = (List.range E.node.length).flatMap (rootQ { E with listSeeds := [], listNode := [] }) := by
+    simp [toRdf, hrdf]
+  rw [hto, mem_rootQ_iff inv' q]
+  have hsame : (List.range E.node.length).flatMap (slotQ { E with listSeeds := [], listNode := [] }) =
+      (List.range E.node.length).flatMap (slotQ E) := rfl
+  show q ∈ (List.range E.node.length).flatMap (slotQ { E with listSeeds := [], listNode := [] }) ↔ _
+  rw [hsame, ← denotes_iff_slotQ inv.aligned, hden]
+  constructor
+  · intro h; exact ⟨q, h, (renameQ_id q).symm⟩
+  · rintro ⟨q', h, rfl⟩; rw [renameQ_id]; exact h
+
+
+theorem roundtrip_nolist_closed : RoundtripNoList := fun o D hd hok hnl => roundtrip_nolist o D hd hok hnl
+
+/-- hence no panic / non-termination anywhere in the serializer on that fragment (cf. `NoPanic`) -/
+theorem no_panic_nolist (o : Opts) (D : List Quad) (hd : o.dir = .none) (hok : ∀ q ∈ D, quadAbs q = true)
+    (hnl : NoListVocab D) : ∃ doc, serialize o D = .ok doc :=
+  let ⟨doc, h, _⟩ := roundtrip_nolist o D hd hok hnl; ⟨doc, h⟩
 
 /-- **suppressed_compensated**, full statement: whenever `jsonify` omits a non-empty slot because its label
 is in `list_node`, the quads of that slot come back (inside an `@list`).  As every other slot is
@@ -281,5 +311,20 @@ example : outQuads {} [⟨s, p, b, none⟩, ⟨b, .iri rdfFirst, a, none⟩, ⟨
     = [⟨s, p, .bnode "ccccccccccc0".toList, none⟩,
        ⟨.bnode "ccccccccccc0".toList, .iri rdfFirst, a, none⟩,
        ⟨.bnode "ccccccccccc0".toList, .iri rdfRest, .iri rdfNil, none⟩] := by decide
+
+/-- a nested list `( (a) a )` inside a named graph: compacted twice, read back with fresh cells -/
+example : (outQuads {} [⟨s, p, b, some g⟩, ⟨b, .iri rdfFirst, .bnode ['n'], some g⟩, ⟨b, .iri rdfRest, .bnode ['c'], some g⟩,
+      ⟨.bnode ['c'], .iri rdfFirst, a, some g⟩, ⟨.bnode ['c'], .iri rdfRest, .iri rdfNil, some g⟩,
+      ⟨.bnode ['n'], .iri rdfFirst, a, some g⟩, ⟨.bnode ['n'], .iri rdfRest, .iri rdfNil, some g⟩]).length = 7 := by decide
+
+/-- a list head with two parents is NOT compacted (every quad is rendered verbatim, labels kept) -/
+example : outQuads {} [⟨s, p, b, none⟩, ⟨a, p, b, none⟩, ⟨b, .iri rdfFirst, a, none⟩, ⟨b, .iri rdfRest, .iri rdfNil, none⟩]
+    = [⟨s, p, b, none⟩, ⟨b, .iri rdfFirst, a, none⟩, ⟨b, .iri rdfRest, .iri rdfNil, none⟩, ⟨a, p, b, none⟩] := by decide
+
+/-- nor is one referenced twice by the SAME subject through two predicates (the two parents share a slot) -/
+example : outQuads {} [⟨s, p, b, none⟩, ⟨s, .iri "http://x/q".toList, b, none⟩, ⟨b, .iri rdfFirst, a, none⟩,
+      ⟨b, .iri rdfRest, .iri rdfNil, none⟩]
+    = [⟨s, p, b, none⟩, ⟨s, .iri "http://x/q".toList, b, none⟩, ⟨b, .iri rdfFirst, a, none⟩,
+       ⟨b, .iri rdfRest, .iri rdfNil, none⟩] := by decide
 
 end SophiaProofs.C12
